@@ -13,6 +13,7 @@ def run(ctx):
     if ctx.thorough():
         ctx.tlc_mc("Fkey.tla", "Fkey_thorough.cfg", timeout=2400)
     ctx.tlc_mc("Fkey.tla", "Fkey_dev_f4.cfg", timeout=600, expect_violation="FkOK", count=False)
-    dbcommon.run_db(ctx, "fkeypairs", 60 if ctx.thorough() else 5, "C08p")
-    dbcommon.run_db(ctx, "fkey", 24 if ctx.thorough() else 1, "C08c")
+    for k in range(4 if ctx.thorough() else 1):
+        dbcommon.run_db(ctx, "fkeypairs", 60 if ctx.thorough() else 5, "C08p" + "x" * k)
+        dbcommon.run_db(ctx, "fkey", 24 if ctx.thorough() else 1, "C08c" + "x" * k)
     ctx.assumptions += dbcommon.ASSUME
